@@ -18,7 +18,7 @@ import z3
 from pyvc.values import *
 from pyvc.engine import Contract
 from pyvc.prop import Property, Bounded, Lemma
-from . import mime as M, dictmbx as D, C10 as C10M
+from . import mime as M, dictmbx as D, C10 as C10M, loaded as LD
 from .C04 import weak_update, weak_expunge
 from harness.e2e_bytes import bounded_bytes
 
@@ -66,7 +66,7 @@ for c in (M.get_partial, M.get_partial_none):
 
 PROPERTY = Property(
     'C03', 'Message bytes are stored and returned verbatim',
-    contracts=M.CONTRACTS + [append, C10M.copy, C10M.move], registry=REG, factories=FACTORIES,
+    contracts=M.CONTRACTS + [append, C10M.copy, C10M.move] + LD.CONTRACTS, registry=REG, factories=FACTORIES,
     lemmas=[Lemma('C03/lemma/raw_is_whole_input_and_header_plus_text_is_input', M.content_lemma)],
     bounded=[Bounded('APPEND b, FETCH every form (real server, dict backend)',
                      'b: 20 special shapes (empty, no header, no separator, no final newline, CR/LF/NUL/8-bit, folded '
